@@ -118,6 +118,40 @@ theorem clCollectAll_eq (s s' : State) (a : String) : ∀ ids, clCollectAll s a 
     split at h; · cases h
     exact ih h
 
+/-- the shape of a successful AddToConcentratedLiquiditySuperfluidPosition -/
+theorem sfAddToCL_some {s s' : State} {a : String} {i : Nat} {x y n : Int}
+    (h : sfAddToCL s a i x y n = some s') :
+    ∃ (p : Position) (l : Lock), aget i s.positions = some p ∧
+      s' = { s with positions := aset s.nextPos { owner := a, pool := p.pool, locked := true, lockId := s.lastLock + 1 }
+                                   (aerase i s.positions),
+                    nextPos := s.nextPos + 1,
+                    locks := aset (s.lastLock + 1) { l with owner := a, recv := "", amt := n, unlocking := false, sf := SF.bonded }
+                               (aerase p.lockId s.locks),
+                    lastLock := s.lastLock + 1 } := by
+  unfold sfAddToCL at h
+  split at h; · cases h
+  cases hp : aget i s.positions with
+  | none => rw [hp] at h; cases h
+  | some p =>
+    rw [hp] at h
+    simp only at h
+    split at h; · cases h
+    split at h; · cases h
+    cases hl : aget p.lockId s.locks with
+    | none => rw [hl] at h; cases h
+    | some l =>
+      rw [hl] at h
+      simp only at h
+      unfold sfAddToCLLock at h
+      split at h; · cases h
+      split at h; · cases h
+      split at h; · cases h
+      split at h; · cases h
+      split at h; · cases h
+      split at h; · cases h
+      injection h with h
+      exact ⟨p, l, rfl, h.symm⟩
+
 /-- every other message leaves the admin table and the metadata alone. -/
 theorem apply_admin_frame (s s' : State) (m : Msg) (ht : touchesAdmin m = false) (hap : apply s m = some s') :
     s'.admins = s.admins ∧ s'.metadata = s.metadata := by
@@ -146,6 +180,15 @@ theorem apply_admin_frame (s s' : State) (m : Msg) (ht : touchesAdmin m = false)
   | sfUndelegate => simp only [apply, sfUndelegate] at hap; unpack hap; all_goals exact ⟨rfl, rfl⟩
   | sfUnbond => simp only [apply, sfUnbond] at hap; unpack hap; all_goals exact ⟨rfl, rfl⟩
   | sfUndelegateUnbond => simp only [apply, sfUndelegateUnbond] at hap; unpack hap; all_goals exact ⟨rfl, rfl⟩
+  | lkBeginAll => simp only [apply, lkBeginAll] at hap; unpack hap; all_goals exact ⟨rfl, rfl⟩
+  | sfConvert => simp only [apply, sfConvert] at hap; unpack hap; all_goals exact ⟨rfl, rfl⟩
+  | sfMigrate => simp only [apply, sfMigrate] at hap; cases hap
+  | sfAddToCL a i x y n =>
+    obtain ⟨p, l, _, e⟩ := sfAddToCL_some (show sfAddToCL s a i x y n = some s' from hap)
+    rw [e]; exact ⟨rfl, rfl⟩
+  | vpDelegateBonded => simp only [apply, vpDelegateBonded] at hap; unpack hap; all_goals exact ⟨rfl, rfl⟩
+  | gmScaling => simp only [apply, gmScaling] at hap; unpack hap; all_goals exact ⟨rfl, rfl⟩
+  | sfUnpoolNoLock => simp only [apply, sfUnpoolNoLock] at hap; unpack hap; all_goals exact ⟨rfl, rfl⟩
 
 theorem adminOf_congr {s s' : State} (h : s'.admins = s.admins) (d : String) : adminOf s' d = adminOf s d := by
   unfold adminOf; rw [h]
@@ -480,6 +523,157 @@ theorem sfUndelegateUnbond_unauthorized (s : State) (sender : String) (id : Nat)
     simp only
     reject
 
+/-! ## the messages of the full inventory -/
+
+/-- **UnbondConvertAndStake** (lock id > 0): a sender who does not own the lock is rejected whatever the
+state of the lock (vanilla bonded, unlocking, superfluid bonded / undelegating / unbonding), the
+validator named and the sender's own funds or pool shares. -/
+theorem sfConvert_unauthorized (s : State) (sender : String) (id : Nat) (val : String)
+    (h : ownerOfLock s id ≠ some sender) : step s (.sfConvert sender id val) = (s, .err) := by
+  apply step_err_of_none
+  show sfConvert s sender id val = none
+  unfold sfConvert
+  unfold ownerOfLock at h
+  split
+  · rfl
+  · cases hl : aget id s.locks with
+    | none => rfl
+    | some l =>
+      rw [hl] at h
+      have : l.owner ≠ sender := fun e => h (by rw [← e]; rfl)
+      simp only [if_pos this]
+      split <;> rfl
+
+/-- the owner check of `convertLockToStake` is needed on its own: the one in `undelegateCommon` is only
+reached for superfluid-BONDED locks.  Witness: dropping the second check (`sfConvertNoOwnCheck`) lets a
+stranger convert bob's vanilla lock. -/
+def sfConvertNoOwnCheck (s : State) (sender : String) (id : Nat) (val : String) : Option State :=
+  if sender ∉ s.valid then none else
+  match aget id s.locks with
+  | none => none
+  | some l =>
+    if l.sf = SF.bonded ∧ l.owner ≠ sender then none else
+    if !l.dk.isGamm then none else
+    if !canStake s sender val then none else
+    some { s with locks := aerase id s.locks }
+
+/-- **UnlockAndMigrateSharesToFullRangeConcentratedPosition** is disabled for everybody. -/
+theorem sfMigrate_disabled (s : State) (sender : String) (id : Nat) :
+    step s (.sfMigrate sender id) = (s, .err) := rfl
+
+/-- **AddToConcentratedLiquiditySuperfluidPosition**: only the owner of the position gets through … -/
+theorem sfAddToCL_unauthorized (s : State) (sender : String) (id : Nat) (a0 a1 n : Int)
+    (h : ownerOfPosition s id ≠ some sender) : step s (.sfAddToCL sender id a0 a1 n) = (s, .err) := by
+  apply step_err_of_none
+  show sfAddToCL s sender id a0 a1 n = none
+  unfold sfAddToCL
+  unfold ownerOfPosition at h
+  split
+  · rfl
+  · cases hp : aget id s.positions with
+    | none => rfl
+    | some p =>
+      rw [hp] at h
+      have hne : p.owner ≠ sender := fun e => h (by rw [← e]; rfl)
+      simp only
+      split; · rfl
+      split; · rfl
+      cases hl : aget p.lockId s.locks with
+      | none => rfl
+      | some l =>
+        simp only
+        unfold sfAddToCLLock
+        by_cases h1 : l.owner ≠ p.owner
+        · rw [if_pos h1]
+        · rw [if_neg h1]
+          have h2 : l.owner ≠ sender := by rw [Classical.not_not.mp h1]; exact hne
+          rw [if_pos h2]
+
+/-- … and he must own the underlying lock as well. -/
+theorem sfAddToCL_lock_unauthorized (s : State) (sender : String) (id : Nat) (a0 a1 n : Int) (p : Position)
+    (hp : aget id s.positions = some p) (h : ownerOfLock s p.lockId ≠ some sender) :
+    step s (.sfAddToCL sender id a0 a1 n) = (s, .err) := by
+  apply step_err_of_none
+  show sfAddToCL s sender id a0 a1 n = none
+  unfold sfAddToCL
+  unfold ownerOfLock at h
+  split
+  · rfl
+  · rw [hp]
+    simp only
+    split; · rfl
+    split; · rfl
+    cases hl : aget p.lockId s.locks with
+    | none => rfl
+    | some l =>
+      rw [hl] at h
+      have h2 : l.owner ≠ sender := fun e => h (by rw [← e]; rfl)
+      simp only
+      unfold sfAddToCLLock
+      reject
+
+/-- **DelegateBondedTokens** (valset-pref): only the owner of the lock can break it. -/
+theorem vpDelegateBonded_unauthorized (s : State) (sender : String) (id : Nat)
+    (h : ownerOfLock s id ≠ some sender) : step s (.vpDelegateBonded sender id) = (s, .err) := by
+  apply step_err_of_none
+  show vpDelegateBonded s sender id = none
+  unfold vpDelegateBonded
+  unfold ownerOfLock at h
+  split
+  · rfl
+  · cases hl : aget id s.locks with
+    | none => rfl
+    | some l =>
+      rw [hl] at h
+      have : l.owner ≠ sender := fun e => h (by rw [← e]; rfl)
+      simp only [if_pos this]
+
+/-- **StableSwapAdjustScalingFactors**: only the pool's scaling-factor controller … -/
+theorem gmScaling_unauthorized (s : State) (sender : String) (pool : Nat) (k : Bool)
+    (h : aget pool s.controllers ≠ some sender) : step s (.gmScaling sender pool k) = (s, .err) := by
+  apply step_err_of_none
+  show gmScaling s sender pool k = none
+  unfold gmScaling
+  cases hc : aget pool s.controllers with
+  | none => rfl
+  | some c =>
+    rw [hc] at h
+    have : sender ≠ c := fun e => h (by rw [e])
+    simp only [if_pos this]
+
+/-- … and a pool created without a controller has none: no real (non-empty) sender ever gets through. -/
+theorem gmScaling_no_controller_is_dead (s : State) (sender : String) (pool : Nat) (k : Bool)
+    (hc : aget pool s.controllers = some "") (hs : sender ≠ "") : step s (.gmScaling sender pool k) = (s, .err) :=
+  gmScaling_unauthorized s sender pool k (by rw [hc]; exact fun e => hs (Option.some.inj e).symm)
+
+/-- **UnPoolWhitelistedPool** from an address that has no lock of the pool's shares changes nothing at all,
+accepted or not (the message names no lock; it can only reach the sender's own). -/
+theorem sfUnpoolNoLock_changes_nothing (s : State) (sender : String) (pool : Nat) :
+    (step s (.sfUnpoolNoLock sender pool)).1 = s := by
+  unfold step
+  cases hap : apply s (.sfUnpoolNoLock sender pool) with
+  | none => rfl
+  | some s' =>
+    simp only [apply, sfUnpoolNoLock] at hap
+    unpack hap
+    rfl
+
+/-- **BeginUnlockingAll** names no lock: whatever happens, a lock of somebody else is left exactly as it was. -/
+theorem lkBeginAll_foreign_untouched (s : State) (sender : String) (j : Nat) (l0 : Lock)
+    (h0 : aget j s.locks = some l0) (hne : l0.owner ≠ sender) :
+    aget j (step s (.lkBeginAll sender)).1.locks = some l0 := by
+  unfold step
+  cases hap : apply s (.lkBeginAll sender) with
+  | none => exact h0
+  | some s' =>
+    simp only [apply, lkBeginAll] at hap
+    unpack hap
+    show aget j (s.locks.map fun p => (p.1, beginAllOne sender p.2)) = some l0
+    rw [aget_map_val, h0]
+    show some (beginAllOne sender l0) = some l0
+    unfold beginAllOne
+    rw [if_neg (fun c => hne c.1)]
+
 /-! ## protected module accounts -/
 
 def isBankAction : Msg → Bool
@@ -703,6 +897,38 @@ theorem lock_owner_never_changes (s : State) (m : Msg) (j : Nat) (l0 l' : Lock)
       all_goals (first
         | exact owner_aset (by assumption) (by rfl) h0 h'
         | exact owner_aset_fresh (by assumption) (by rfl) hfresh h0 h')
+    | sfMigrate => simp only [apply, sfMigrate] at hap; cases hap
+    | gmScaling => simp only [apply, gmScaling] at hap; unpack hap; all_goals exact same rfl
+    | sfUnpoolNoLock => simp only [apply, sfUnpoolNoLock] at hap; unpack hap; all_goals exact same rfl
+    | sfConvert a i v =>
+      simp only [apply, sfConvert] at hap; unpack hap
+      simp only at h'
+      by_cases e : i = j
+      · subst e; rw [aget_aerase_self] at h'; cases h'
+      · rw [aget_aerase_ne e, h0] at h'; injection h' with h'; rw [h']
+    | vpDelegateBonded a i =>
+      simp only [apply, vpDelegateBonded] at hap; unpack hap
+      simp only at h'
+      by_cases e : i = j
+      · subst e; rw [aget_aerase_self] at h'; cases h'
+      · rw [aget_aerase_ne e, h0] at h'; injection h' with h'; rw [h']
+    | lkBeginAll a =>
+      simp only [apply, lkBeginAll] at hap; unpack hap
+      simp only at h'
+      rw [aget_map_val, h0] at h'
+      injection h' with h'
+      rw [← h']
+      unfold beginAllOne
+      split <;> rfl
+    | sfAddToCL a i x y n =>
+      obtain ⟨p, l, _, e⟩ := sfAddToCL_some (show sfAddToCL s a i x y n = some s' from hap)
+      rw [e] at h'
+      simp only at h'
+      have hk : s.lastLock + 1 ≠ j := fun e => by rw [e, h0] at hfresh; cases hfresh
+      rw [aget_aset_ne hk] at h'
+      by_cases e : p.lockId = j
+      · rw [e, aget_aerase_self] at h'; cases h'
+      · rw [aget_aerase_ne e, h0] at h'; injection h' with h'; rw [h']
 
 theorem clTransferOne_cases {ps ps' : List (Nat × Position)} {g : Bool} {sender n : String} {id : Nat}
     (h : clTransferOne ps g sender n id = some ps') :
@@ -800,6 +1026,22 @@ theorem position_owner_changes_only_by_owner_or_gov (s : State) (m : Msg) (j : N
     | sfUndelegate => simp only [apply, sfUndelegate] at hap; unpack hap; all_goals exact absurd rfl same
     | sfUnbond => simp only [apply, sfUnbond] at hap; unpack hap; all_goals exact absurd rfl same
     | sfUndelegateUnbond => simp only [apply, sfUndelegateUnbond] at hap; unpack hap; all_goals exact absurd rfl same
+    | lkBeginAll => simp only [apply, lkBeginAll] at hap; unpack hap; all_goals exact absurd rfl same
+    | sfConvert => simp only [apply, sfConvert] at hap; unpack hap; all_goals exact absurd rfl same
+    | sfMigrate => simp only [apply, sfMigrate] at hap; cases hap
+    | vpDelegateBonded => simp only [apply, vpDelegateBonded] at hap; unpack hap; all_goals exact absurd rfl same
+    | gmScaling => simp only [apply, gmScaling] at hap; unpack hap; all_goals exact absurd rfl same
+    | sfUnpoolNoLock => simp only [apply, sfUnpoolNoLock] at hap; unpack hap; all_goals exact absurd rfl same
+    | sfAddToCL a i x y n =>
+      exfalso
+      obtain ⟨p, l, _, e⟩ := sfAddToCL_some (show sfAddToCL s a i x y n = some s' from hap)
+      rw [e] at h'
+      simp only at h'
+      have hk : s.nextPos ≠ j := fun e => by rw [e, h0] at hfresh; cases hfresh
+      rw [aget_aset_ne hk] at h'
+      by_cases e : i = j
+      · subst e; rw [aget_aerase_self] at h'; cases h'
+      · rw [aget_aerase_ne e, h0] at h'; injection h' with h'; exact hne (by rw [h'])
     | clWithdraw a i k =>
       exfalso
       simp only [apply, clWithdraw] at hap; unpack hap
@@ -844,9 +1086,9 @@ def s0 : State :=
     bal := [(("bob", "factory/alice/gold"), 50), (("gov", "factory/alice/gold"), 7), (("carol", "uosmo"), 25),
             (("bob", "factory/alice/dead"), 9)],
     supply := [("factory/alice/gold", 57)],
-    locks := [(1, ⟨"bob", "", 100, false, 40, true, .none⟩), (2, ⟨"carol", "", 100, false, 40, true, .bonded⟩)],
+    locks := [(1, ⟨"bob", "", 100, false, 40, true, .none, .gamm 1⟩), (2, ⟨"carol", "", 100, false, 40, true, .bonded, .gamm 1⟩)],
     lastLock := 2,
-    positions := [(1, ⟨"alice", 1, false⟩), (2, ⟨"bob", 1, false⟩), (3, ⟨"carol", 1, false⟩)], nextPos := 4 }
+    positions := [(1, ⟨"alice", 1, false, 0⟩), (2, ⟨"bob", 1, false, 0⟩), (3, ⟨"carol", 1, false, 0⟩)], nextPos := 4 }
 
 /-- every message type goes through for the owner / admin on a concrete state … -/
 theorem owner_can :
@@ -883,6 +1125,39 @@ theorem stranger_cannot :
     (step s0 (.sfUndelegate "bob" 2)).2 = .err ∧
     (step s0 (.tfBurn "alice" "factory/alice/gold" 5 "gov")).2 = .err ∧
     (step s0 (.tfMint "bob" "factory/alice/dead" 5 "bob")).2 = .err := by decide
+
+def s1 : State :=
+  { s0 with delegators := ["alice", "carol"], controllers := [(7, "bob"), (8, "")],
+            locks := [(1, ⟨"bob", "", 100, false, 40, true, .none, .gamm 1⟩), (2, ⟨"carol", "", 100, false, 40, true, .bonded, .cl 1⟩),
+                      (3, ⟨"alice", "", 100, false, 40, false, .none, .osmo⟩), (4, ⟨"bob", "", 100, true, 40, true, .undelegating, .gamm 1⟩)],
+            lastLock := 4,
+            positions := [(1, ⟨"alice", 1, false, 0⟩), (2, ⟨"bob", 1, false, 0⟩), (4, ⟨"carol", 1, true, 2⟩)], nextPos := 5 }
+
+/-- the new messages go through for the owner … -/
+theorem owner_can_more :
+    (step s1 (.lkBeginAll "alice")).2 = .ok ∧
+    (step s1 (.sfConvert "bob" 1 "val")).2 = .ok ∧
+    (step s1 (.sfConvert "bob" 4 "val")).2 = .ok ∧
+    (step s1 (.sfAddToCL "carol" 4 5 5 77)).2 = .ok ∧
+    (step s1 (.vpDelegateBonded "alice" 3)).2 = .ok ∧
+    (step s1 (.gmScaling "bob" 7 true)).2 = .ok := by decide
+
+/-- … and fail for everybody else, even one who could otherwise execute them (a delegator, a valid
+validator, a lock in every state); the disabled migration fails for the owner too. -/
+theorem stranger_cannot_more :
+    (step s1 (.sfConvert "carol" 1 "val")).2 = .err ∧
+    (step s1 (.sfConvert "alice" 4 "val")).2 = .err ∧
+    (step s1 (.sfAddToCL "alice" 4 5 5 77)).2 = .err ∧
+    (step s1 (.vpDelegateBonded "carol" 3)).2 = .err ∧
+    (step s1 (.sfMigrate "bob" 1)).2 = .err ∧
+    (step s1 (.gmScaling "carol" 7 true)).2 = .err ∧
+    (step s1 (.gmScaling "bob" 8 true)).2 = .err ∧
+    aget 1 (step s1 (.lkBeginAll "alice")).1.locks = aget 1 s1.locks := by decide
+
+/-- the second owner check of UnbondConvertAndStake is not redundant (see `sfConvertNoOwnCheck`). -/
+theorem sfConvert_second_check_needed_witness :
+    (sfConvertNoOwnCheck s1 "carol" 1 "val").isSome = true ∧ (sfConvertNoOwnCheck s1 "carol" 4 "val").isSome = true ∧
+    sfConvert s1 "carol" 1 "val" = none := by decide
 
 /-- why `renounced_admin_is_dead` needs `sender ≠ ""`: the Go guard is a plain string comparison with
 the stored admin, and a renounced admin IS the empty string — a message whose sender field is empty
@@ -956,5 +1231,58 @@ theorem order_pinned :
     order_superfluid_k_unbondLock = ["validateLockForSF", "BeginForceUnlock"] ∧
     order_superfluid_k_SuperfluidUndelegateAndUnbondLock = ["SuperfluidUndelegate", "unbondLock", "DeleteSyntheticLockup", "SuperfluidDelegate"] ∧
     order_superfluid_k_SuperfluidUndelegate = ["undelegateCommon", "createSyntheticLockup"] := by decide
+
+/-! ### T1 for the messages of the full inventory -/
+
+open OsmoVerif.Gen.Auth in
+/-- UnbondConvertAndStake: `undelegateCommon` (and with it `validateLockForSF`) runs for superfluid-BONDED locks
+only — the owner check inside `convertLockToStake` (`guards_pinned`, last line) is the one that protects vanilla,
+unlocking and undelegating locks; AddToConcentratedLiquiditySuperfluidPosition compares the lock owner with the
+position owner and with the sender; DelegateBondedTokens compares the lock owner with the delegator. -/
+theorem guards_pinned_more :
+    guards_superfluid_k_UnbondConvertAndStake = ["migrationType == SuperfluidBonded",
+      "migrationType == SuperfluidBonded || migrationType == SuperfluidUnbonding || migrationType == NonSuperfluid",
+      "migrationType == Unlocked"] ∧
+    guards_superfluid_k_addToConcentratedLiquiditySuperfluidPosition = ["lock.Owner != position.Address", "lock.Owner != sender.String()"] ∧
+    guards_superfluid_k_validateGammLockForSuperfluidStaking = ["lock.Owner != sender.String()"] ∧
+    guards_valsetpref_k_validateLockForForceUnlock = ["lock.GetOwner() != delegatorAddr", "lock.IsUnlocking() || lock.Duration > time.Hour*24*7*2"] ∧
+    stmt_superfluid_UnlockAndMigrateSharesToFullRangeConcentratedPosition =
+      "return nil, errors.New(\"UnlockAndMigrateSharesToFullRangeConcentratedPosition is no longer supported\")" ∧
+    guards_gamm_stableswap_SetScalingFactors = ["sender != p.ScalingFactorController"] := by decide
+
+open OsmoVerif.Gen.Auth in
+/-- the identity checked is the message's sender / owner / delegator field; BeginUnlockingAll and
+UnPoolWhitelistedPool name no lock — they walk the locks of the address decoded from the sender field. -/
+theorem calls_pinned_more :
+    call_superfluid_k_UnbondConvertAndStake_sender = "sdk.AccAddressFromBech32(sender)" ∧
+    call_superfluid_k_UnbondConvertAndStake_undelegateCommon = "k.undelegateCommon(ctx, sender, lockID)" ∧
+    call_superfluid_k_UnbondConvertAndStake_convertLockToStake = "k.convertLockToStake(ctx, senderAddr, valAddr, lockID, minAmtToStake)" ∧
+    call_superfluid_AddToConcentratedLiquiditySuperfluidPosition =
+      "server.keeper.addToConcentratedLiquiditySuperfluidPosition(ctx, sender, msg.PositionId, msg.TokenDesired0.Amount, msg.TokenDesired1.Amount)" ∧
+    call_superfluid_AddToConcentratedLiquiditySuperfluidPosition_sender = "sdk.AccAddressFromBech32(msg.Sender)" ∧
+    call_superfluid_k_SuperfluidUndelegateToConcentratedPosition = "k.undelegateCommon(ctx, sender, gammLockID)" ∧
+    call_superfluid_UnPoolWhitelistedPool_sender = "sdk.AccAddressFromBech32(msg.Sender)" ∧
+    call_superfluid_UnPoolWhitelistedPool_locks = "server.keeper.lk.GetAccountLockedLongerDurationDenom(ctx, sender, lpShareDenom, minimalDuration)" ∧
+    call_superfluid_UnPoolWhitelistedPool_unpool = "server.keeper.UnpoolAllowedPools(ctx, sender, msg.PoolId, lock.ID)" ∧
+    call_lockup_BeginUnlockingAll = "server.keeper.BeginUnlockAllNotUnlockings(ctx, owner)" ∧
+    call_lockup_BeginUnlockingAll_owner = "sdk.AccAddressFromBech32(msg.Owner)" ∧
+    call_lockup_k_BeginUnlockAllNotUnlockings = "k.beginUnlockFromIterator(ctx, k.AccountLockIterator(ctx, false, account))" ∧
+    call_lockup_k_beginUnlockFromIterator = "k.BeginUnlock(ctx, lock.ID, nil)" ∧
+    call_valsetpref_DelegateBondedTokens = "server.keeper.ForceUnlockBondedOsmo(ctx, msg.LockID, msg.Delegator)" ∧
+    call_valsetpref_DelegateBondedTokens_prefs = "server.keeper.GetDelegationPreferences(ctx, msg.Delegator)" ∧
+    call_valsetpref_k_ForceUnlockBondedOsmo = "k.validateLockForForceUnlock(ctx, lockID, delegatorAddr)" ∧
+    call_gamm_StableSwapAdjustScalingFactors = "server.keeper.setStableSwapScalingFactors(ctx, msg.PoolID, msg.ScalingFactors, msg.Sender)" ∧
+    call_gamm_k_setStableSwapScalingFactors = "stableswapPool.SetScalingFactors(ctx, scalingFactors, sender)" := by
+  repeat' (first | rfl | constructor)
+
+open OsmoVerif.Gen.Auth in
+/-- the owner validation precedes the first state change (force-unlock / pool exit / staking). -/
+theorem order_pinned_more :
+    order_superfluid_k_UnbondConvertAndStake = ["AccAddressFromBech32", "getMigrationType", "undelegateCommon", "convertLockToStake", "convertUnlockedToStake"] ∧
+    order_superfluid_k_convertLockToStake = ["GetLockByID", "forceUnlockAndExitBalancerPool", "convertGammSharesToOsmoAndStake"] ∧
+    order_superfluid_k_UnpoolAllowedPools = ["checkUnpoolWhitelisted", "validateGammLockForSuperfluidStaking", "unbondSuperfluidIfExists", "ForceUnlock", "ExitPool"] ∧
+    order_valsetpref_k_ForceUnlockBondedOsmo = ["validateLockForForceUnlock", "GetSyntheticLockupByUnderlyingLockId", "ForceUnlock"] ∧
+    order_valsetpref_DelegateBondedTokens = ["GetDelegationPreferences", "ForceUnlockBondedOsmo", "DelegateToValidatorSet"] ∧
+    order_gamm_k_setStableSwapScalingFactors = ["GetPoolAndPoke", "SetScalingFactors", "setPool"] := by decide
 
 end OsmoVerif.Props.C20
